@@ -7,7 +7,10 @@ PROP = dict(
     level="other",
     contract_modules=["contracts.models", "contracts.sqlite", "contracts.datastore", "contracts.memory"],
     spec_modules=["contracts.sqlite", "contracts.datastore", "contracts.memory"],
-    functions=[dict(fn=S + "get_events", rt_skip=True),
+    functions=[dict(fn="contracts.sqlite.stored_event_in_window", rt_skip=True),
+               dict(fn=S + "insert_one", rt_skip=True),
+               dict(fn=S + "conditional_commit", rt_skip=True),
+               dict(fn=S + "get_events", rt_skip=True),
                dict(fn=S + "get_eventcount", rt_skip=True),
                dict(fn="aw_datastore.storages.sqlite._rows_to_events", rt_skip=True),
                dict(fn=D + "Bucket.get", rt_skip=True),
@@ -19,7 +22,7 @@ PROP = dict(
     extra=[lambda run: run.storage_histories("C03")],
     technique="run-time refinement check of the real back ends against a reference list over random histories (bounded); "
               "with the sqlite methods proved against contracts over the table state (SQL text parsed from the source)",
-    explanation="deductive (sqlite): get_events returns exactly the live events of the bucket with endtime >= start bound and starttime <= end bound, in (starttime, endtime, id) descending order, all of them unless a positive limit is reached, in which case the omitted ones all come after every returned one; limit 0 returns nothing; get_eventcount counts exactly those rows. Bucket.get is proved to hand the storage the caller's window widened to whole milliseconds (start rounded down, end rounded down plus one millisecond: lemma F1 for int(microsecond / 1000)), so that nothing intersecting the caller's window is missed, and to return exactly the storage's answer for that window. deductive (memory): get_events returns fresh copies of stored events that intersect the window, newest first, at most `limit` of them, none for limit 0 (that none is missing is only bounded for this back end); get_eventcount is exact. " 
+    explanation="deductive (sqlite): a stored event is returned by a windowed read exactly when its time span meets the window, as INSTANTS (closed interval, open-ended bounds included), and then with its own instant and duration: contracts.sqlite.stored_event_in_window, a lemma over the contracts of insert_one and get_events and the floating-point lemmas F3 / F5 (the encoding of an instant is within half a microsecond of it, hence strictly increasing, and decodes exactly). At the level of the stored floats: get_events returns exactly the live events of the bucket with endtime >= start bound and starttime <= end bound, in (starttime, endtime, id) descending order, all of them unless a positive limit is reached, in which case the omitted ones all come after every returned one; limit 0 returns nothing; get_eventcount counts exactly those rows. Bucket.get is proved to hand the storage the caller's window widened to whole milliseconds (start rounded down, end rounded down plus one millisecond: lemma F1 for int(microsecond / 1000)), so that nothing intersecting the caller's window is missed, and to return exactly the storage's answer for that window. deductive (memory): get_events returns fresh copies of stored events that intersect the window, newest first, at most `limit` of them, none for limit 0 (that none is missing is only bounded for this back end); get_eventcount is exact. " 
                 "bounded: random bucket contents (overlapping, nested, adjacent, zero-length events) and random windows (open-ended, zero-width, sub-millisecond) and limits on the three back ends: every event strictly inside (beyond 2 ms of an edge) must be returned and none strictly outside, ordered by timestamp descending, a positive limit keeps the newest, the count agrees within the same tolerance, peewee's results are the stored events cut to the window.",
 )
 
